@@ -113,7 +113,9 @@ struct CoroSpec {
 
 struct Scenario {
   std::vector<CellSpec> cells;
-  std::vector<std::string> execs;  // run | stop | stop1   (executor k = execs[k-1]; executor 0 = the library's inline one)
+  std::vector<std::string> execs;  // run | stop | stop1 | istop   (executor k = execs[k-1]; executor 0 = the library's inline
+                                   // one; istop = the library's STOPPED inline executor yaclib::MakeInline(StopTag{}): its
+                                   // Submit is Drop in place and cannot be instrumented, the Drop is inferred from the Result)
   std::vector<CoroSpec> coros;
 
   static std::string OpStr(const OpSpec& o) {
@@ -167,6 +169,7 @@ struct CoState {
   int ldtors = 0, fdtors = 0, results = 0;
   std::string result;
   bool dropped = false;
+  bool left_body = false;    // co_return / escaping exception reached
   int reached = 0;           // co_awaits started
   int ex_before = 0;         // executor of the coroutine when the current co_await started
 };
@@ -276,8 +279,14 @@ struct Exec final : yaclib::IExecutor {
 int ExecId(yaclib::IExecutor* e) {
   if (e == &yaclib::MakeInline()) return 0;
   for (auto& x : G->execs)
-    if (x.get() == e) return x->id;
+    if (x.get() == e || (x->mode == "istop" && e == &yaclib::MakeInline(yaclib::StopTag{}))) return x->id;
   return -1;
+}
+
+yaclib::IExecutor& ExecRef(int e) {
+  auto& x = *G->execs[static_cast<std::size_t>(e - 1)];
+  if (x.mode == "istop") return yaclib::MakeInline(yaclib::StopTag{});
+  return x;
 }
 
 int ExecIdOf(BaseCore* core) { return ExecId(core->_executor.Get()); }
@@ -419,6 +428,11 @@ struct W {
     const int ex = ExecId(co.core->_executor.Get());
     // ---- monitors on the resumption context
     if (!done) G->Bad(me + " resumed from co_await #" + std::to_string(k) + " (" + op.kind + ") before the awaited object was fulfilled");
+    if ((op.kind == "on" || op.kind == "mon" || (op.kind == "resched" && op.e >= 0)) &&
+        G->execs[static_cast<std::size_t>(op.e - 1)]->mode != "run" && G->execs[static_cast<std::size_t>(op.e - 1)]->mode != "stop1") {
+      G->Bad(me + " continued after co_await #" + std::to_string(k) + " (" + op.kind + ") although executor e" + std::to_string(op.e) +
+             " is stopped: the coroutine must be completed with StopError");
+    }
     if ((op.kind == "on" || op.kind == "mon" || (op.kind == "resched" && op.e >= 0))) {
       if (on != "e" + std::to_string(op.e)) G->Bad(me + " co_await #" + std::to_string(k) + " resumed on " + on + " instead of e" + std::to_string(op.e));
       if (ex != op.e) G->Bad(me + " executor after " + op.kind + " is e" + std::to_string(ex));
@@ -488,6 +502,7 @@ void Enter(int cid) {
 }
 
 void Leave(int cid) {
+  G->co[cid].left_body = true;
   vx::Ev("ret " + Cn(cid));
   vx::gCtx->NameSelf(G->co[cid].resumer);
 }
@@ -504,7 +519,7 @@ R Body(FrameGuard fg, int cid) {
   std::vector<Local> locals;
   locals.reserve(static_cast<std::size_t>(cs.locals));
   for (int i = 0; i < cs.locals; ++i) locals.emplace_back(cid);
-  auto E = [&](int e) -> yaclib::IExecutor& { return *G->execs[static_cast<std::size_t>(e - 1)]; };
+  auto E = [&](int e) -> yaclib::IExecutor& { return ExecRef(e); };
   auto isS = [&](int j) { return G->sc->cells[static_cast<std::size_t>(j)].kind == 's' || G->sc->cells[static_cast<std::size_t>(j)].kind == 'S'; };
   try {
     for (int k = 0; k < static_cast<int>(cs.ops.size()); ++k) {
@@ -754,6 +769,14 @@ void RunScenario(const Scenario& sc) {
         auto& co = G->co[static_cast<std::size_t>(cid)];
         ++co.results;
         co.result = r;
+        if (!co.left_body && !co.dropped && co.reached > 0) {
+          // a Result although the body was not left: the coroutine was dropped by an executor the harness cannot instrument
+          // (the library's stopped inline executor: Submit = Drop in place)
+          auto& op = G->sc->coros[static_cast<std::size_t>(cid)].ops[static_cast<std::size_t>(co.reached - 1)];
+          co.dropped = true;
+          vx::Ev("submit " + Cn(cid) + " e" + std::to_string(op.e >= 0 ? op.e : co.ex_before));
+          vx::Ev("drop " + Cn(cid));
+        }
         vx::Ev("result " + Cn(cid) + " " + r);
       };
       const std::string& type = sc.coros[i].type;
@@ -924,6 +947,19 @@ std::vector<Scenario> AllScenarios(bool thorough) {
   add({}, {"stop"}, {Co({Op("resched", {}, 1)}, "future", "val:7", false, 2)});
   add({}, {"stop1"}, {Co({Op("resched", {}, 1), Op("resched", {}, -1), Op("current", {})}, "future", "val:7", false, 3)});
   add({}, {"run", "stop"}, {Co({Op("resched", {}, 1), Op("resched", {}, 2)}, "task")});
+  // -- the library's stopped inline executor MakeInline(StopTag{}) (it reports Type::Inline like the alive one): On / AwaitOn of
+  //    one, a pack, a range; unique and shared; everything complete / something pending
+  add({}, {"istop"}, {Co({Op("resched", {}, 1)}, "future", "val:7", false, 2)});
+  add({Cell('u', "val:1", "pre")}, {"istop"}, {Co({Op("on", {0}, 1)}, "future", "val:7", false, 2)});
+  add({Cell('u')}, {"istop"}, {Co({Op("on", {0}, 1)}, "task", "val:7", false, 2)});
+  add({Cell('s', "val:1", "pre")}, {"istop"}, {Co({Op("on", {0}, 1)}, "shared", "val:7", false, 1)});
+  add({Cell('u', "val:1", "pre"), Cell('u', "val:5", "pre")}, {"istop"}, {Co({Op("mon", {0, 1}, 1)}, "future", "val:7", false, 2)});
+  add({Cell('u', "val:1", "pre"), Cell('u', "val:5")}, {"istop"}, {Co({Op("mon", {0, 1}, 1)}, "future", "val:7", false, 2)});
+  add({Cell('s', "val:1", "pre"), Cell('u', "val:5", "pre")}, {"istop"}, {Co({Op("mon", {0, 1}, 1)})});
+  add({Cell('s', "val:1", "pre"), Cell('s', "val:5", "pre")}, {"istop"}, {Co({Op("mon", {0, 1}, 1, false, true)}, "task", "val:7", false, 2)});
+  add({Cell('u', "val:1", "pre"), Cell('u', "val:5", "pre"), Cell('u', "val:6", "pre")}, {"istop"},
+      {Co({Op("mon", {0, 1, 2}, 1, false, true)}, "future", "val:7", false, 2)});
+  add({Cell('u', "val:1", "pre"), Cell('u', "val:5"), Cell('u', "val:6", "pre")}, {"istop"}, {Co({Op("mon", {0, 1, 2}, 1)})});
   // -- plain await after On: the coroutine continues inline on the producer and takes the awaited core's executor
   add({Cell('u'), Cell('u', "val:5")}, {"run"}, {Co({Op("resched", {}, 1), Op("single", {0}), Op("current", {}), Op("sticky", {1}), Op("current", {})})});
   // -- multi forms
